@@ -298,7 +298,7 @@ class Sequencer(object):
                         cur[n] += 1
             playing = new_playing
 
-        for p in playing:
+        for p in list(playing):
             self.stop_NoteContainer(p[1], p[2])
             playing.remove(p)
         return {"bpm": bpm}
